@@ -21,10 +21,25 @@ def r_units(repo):
     fn = m.functions.get('R')
     if fn is None:
         raise AnchorError('pmutt.constants.R not found')
+    # the table R looks its argument up in, found by role: a dict literal written inside the function, or one bound to
+    # a module-level name that the function reads - whichever holds the unit strings (every key a text ending in /K)
+    cands = [n for n in ast.walk(fn) if isinstance(n, ast.Dict)]
     for n in ast.walk(fn):
-        if isinstance(n, ast.Assign) and isinstance(n.value, ast.Dict):
-            return [fold_value(m, k) for k in n.value.keys]
-    raise AnchorError('R table not found')
+        if isinstance(n, ast.Name) and isinstance(n.ctx, ast.Load):
+            node = (m.assigns.get(n.id) or [None])[-1]
+            if isinstance(node, ast.Dict) and node not in cands:
+                cands.append(node)
+    tables = []
+    for node in cands:
+        try:
+            keys = [fold_value(m, k) for k in node.keys if k is not None]
+        except (Unsupported, AnchorError, ValueError, TypeError, KeyError):
+            continue
+        if keys and len(keys) == len(node.keys) and all(isinstance(k, str) and k.endswith('/K') for k in keys):
+            tables.append(keys)
+    if len(tables) != 1:
+        raise AnchorError('R table not found' if not tables else 'more than one table of unit strings in R')
+    return tables[0]
 
 
 def atomic_weights(repo):
@@ -137,26 +152,36 @@ def sel_label(sel):
     return '' if sel is None else '[S_elements]' if sel else '[S_elements=False]'
 
 
-def run_pair(run, I, obj, label, wname, tname, q, owner, fn, avail, units_list, molweight, counter):
-    """one finding per (class, wrapper): the unit strings and option variants that fail are listed in the text"""
+def run_pair(run, I, obj, label, wname, tname, q, owner, fn, avail, units_list, molweight, counter, warns=False):
+    """one finding per (class, wrapper): the unit strings and option variants that fail are listed in the text.
+    warns: the two forms must also issue the same number of warnings (an option that silences them acts on both)"""
     D = I.D
     T = avail.get('T')
     cls_label = label.split('[')[0]
     variant = label[len(cls_label):]
     construct = '%s.%s' % (cls_label, wname)
+    decided = 0
     for u in units_list:
         uarg = u[:-2] if q in ENERGY else u
+        n0 = len(I.warnings)
         w = getv(I, obj, wname, dict(avail, units=uarg))[0]
+        n1 = len(I.warnings)
         t = getv(I, obj, tname, avail)[0]
+        n2 = len(I.warnings)
         rf = rfactor(I, u, molweight)
         counter[0] += 1
         if isinstance(t, Raised):
             continue            # the dimensionless form is not defined under these conditions either
+        decided += 1
         if isinstance(w, Raised):
             run.fail('FWD.raises', construct, 'raises:' + w.exc,
                      'the dimensional getter raises %s (units=%r%s) although %s evaluates under the same conditions'
                      % (w.exc, uarg, variant, tname), owner.module, fn)
             continue
+        if warns:
+            run.check(n1 - n0 == n2 - n1, 'FWD.warns', construct, 'warnings',
+                      '%s(units=%r)%s issues %d warning(s), %s under the same conditions and options issues %d'
+                      % (wname, uarg, variant, n1 - n0, tname, n2 - n1), owner.module, fn)
         if rf is None:
             continue
         want = I.binop('*', t, rf)
@@ -168,6 +193,7 @@ def run_pair(run, I, obj, label, wname, tname, q, owner, fn, avail, units_list, 
                   owner.module, fn,
                   sample='%s.%s(%r) == %s * R(%r)%s' % (label, wname, uarg, tname, u,
                                                        ' * T' if q in ENERGY else '') if counter[0] % 37 == 0 else None)
+    return decided
 
 
 def run_nomass(run, I, obj, label, wname, tname, q, owner, fn, avail, counter):
@@ -183,6 +209,69 @@ def run_nomass(run, I, obj, label, wname, tname, q, owner, fn, avail, counter):
                   '%s(units=%r) of %s returns %s although the object has no composition (elements): a value per mass '
                   'must be %s * R / (molar mass), and there is no molar mass'
                   % (wname, uarg, label, show(w, 200), tname), owner.module, fn)
+
+
+def pressure_default(*objs):
+    """the stubs that stand for species, modes and attached models answer like the real ones when the pressure is left
+    out: every getter of the package that takes a pressure documents 'P in bar, default 1 bar' (c.P0('bar')), so a
+    call without P and a call with P = 1 are the same request and name the same atom"""
+    def wrap(h):
+        def g(I_, obj, args, kwargs):
+            if 'P' not in kwargs:
+                kwargs = dict(kwargs, P=C(1))
+            return h(I_, obj, args, kwargs)
+        g.pressure_default = True
+        return g
+    for o in objs:
+        for mname, h in list(o.opaque_methods.items()):
+            if 'P' in o.opaque_params.get(mname, ()) and not getattr(h, 'pressure_default', False):
+                o.opaque_methods[mname] = wrap(h)
+
+
+def bare_model(I, name):
+    """a user-defined mode / mixing model that has none of the thermodynamic getters (like a model that only shifts
+    one quantity, taken to the extreme): what it contributes is the documented default, under raise_error=False"""
+    o = opaque_obj(I, name, {})
+    o.missing.update(MIX_GETTERS)
+    o.missing.add('name_j')
+    return o
+
+
+MIX_GETTERS = ('get_q', 'get_CvoR', 'get_CpoR', 'get_UoRT', 'get_HoRT', 'get_SoR', 'get_FoRT', 'get_GoRT', 'get_EoRT',
+               'get_ZPE')
+# the two documented switches for a model that lacks a getter: the error is turned into a warning, the warning into
+# nothing (raise_warning is "only relevant if raise_error is False")
+SILENCE = ({'raise_error': False}, {'raise_error': False, 'raise_warning': False})
+
+SIDES = ('reactants', 'reactants_stoich', 'products', 'products_stoich', 'transition_state', 'transition_state_stoich')
+# documented texts a reaction can be given at construction (everything else optional is a number or a switch)
+TEXT_OPTIONS = {'id': 'r0001', 'direction': 'synthesis', 'notes': 'a note'}
+
+
+def ctor_options(repo, ci, D):
+    """{parameter: (value a user may give, is it a switch)} for every optional parameter of the constructors along the
+    MRO other than the sides of the reaction: numbers (default None or a number) as symbols, switches flipped, the
+    documented texts"""
+    out = {}
+    seen = set()
+    for k in ci.mro:
+        got = repo.find_method(k, '__init__', missing_ok=True)
+        if not got or id(got[1]) in seen:
+            continue
+        seen.add(id(got[1]))
+        a = got[1].args
+        pos = a.posonlyargs + a.args
+        for arg, d in list(zip(pos[len(pos) - len(a.defaults):], a.defaults)) + list(zip(a.kwonlyargs, a.kw_defaults)):
+            nm = arg.arg
+            if nm in SIDES or nm in out or d is None:
+                continue
+            if nm in TEXT_OPTIONS:
+                out[nm] = (TEXT_OPTIONS[nm], False)
+            elif isinstance(d, ast.Constant) and isinstance(d.value, bool):
+                out[nm] = (not d.value, True)
+            elif isinstance(d, ast.Constant) and (d.value is None or isinstance(d.value, (int, float))):
+                out[nm] = (D.sym('user.' + nm), False)
+    return out
 
 
 def check(run, repo):
@@ -220,7 +309,7 @@ def check(run, repo):
             continue
         has_el = assigns_attr(repo, obj.ci, 'elements')
         if has_el:
-            obj.attrs['elements'] = DictV({'H': nH, 'O': nO})
+            set_public(I, obj, 'elements', DictV({'H': nH, 'O': nO}))
         else:
             obj.missing.add('elements')
         for wname, tname, q, owner, fn in wrappers_of(repo, obj.ci):
@@ -267,9 +356,16 @@ def check(run, repo):
     nH, nO = D.sym('nH'), D.sym('nO')
     molw = C(aw['H']) * nH + C(aw['O']) * nO
     attrs = {a: opaque_obj(I, a, {m: ('T', 'P') for m in methods}) for a in MODE_ATTRS}
-    attrs.update({'name': 'sp', 'elements': DictV({'H': nH, 'O': nO}), 'references': None, 'misc_models': None})
-    sp = Obj('sp', ci, attrs=attrs)
-    sel_opaque(sp)
+    pressure_default(*attrs.values())
+    attrs.update({'name': 'sp', 'references': None, 'misc_models': None})
+
+    def species(elements, **over):
+        # the composition goes in the way a user sets it (through the property, should the class have one)
+        o = Obj('sp', ci, attrs=dict(attrs, **over))
+        set_public(I, o, 'elements', elements)
+        sel_opaque(o)
+        return o
+    sp = species(DictV({'H': nH, 'O': nO}))
     # the entropy-of-elements switch is a boolean whose default is None: left out, switched on and switched off
     # explicitly (False is not None - a wrapper that hands on "was it given" instead of the value shows here)
     for sel in (None, True, False):
@@ -287,16 +383,14 @@ def check(run, repo):
     # a second species with the same element symbols but other counts, evaluated after the first in the same
     # session: per-mass values must use its own molar mass (nothing may be remembered from the previous species)
     mH, mO = D.sym('mH'), D.sym('mO')
-    sp_b = Obj('sp', ci, attrs=dict(attrs, elements=DictV({'H': mH, 'O': mO})))
-    sel_opaque(sp_b)
+    sp_b = species(DictV({'H': mH, 'O': mO}))
     molw_b = C(aw['H']) * mH + C(aw['O']) * mO
     for wname, tname, q, owner, fn in wrappers_of(repo, ci):
         av = {'T': D.sym('T'), 'P': D.sym('P')}
         run_pair(run, I, sp_b, 'StatMech[second species, same elements]', wname, tname, q, owner, fn, av,
                  ['J/g/K'], molw_b, counter)
     # the same species without a composition (``elements`` is None, the constructor's default)
-    sp_0 = Obj('sp', ci, attrs=dict(attrs, elements=None))
-    sel_opaque(sp_0)
+    sp_0 = species(None)
     for wname, tname, q, owner, fn in wrappers_of(repo, ci):
         run_nomass(run, I, sp_0, 'StatMech[elements=None]', wname, tname, q, owner, fn,
                    {'T': D.sym('T'), 'P': D.sym('P')}, counter)
@@ -304,8 +398,7 @@ def check(run, repo):
     # one at a time, on both - an option that is consumed on the way (use_references, verbose, ...) shows
     refs = opaque_obj(I, 'refs', {m: ('descriptors', 'T') for m in methods})
     refs.attrs['descriptor'] = 'elements'
-    sp_ref = Obj('sp', ci, attrs=dict(attrs, references=refs))
-    sel_opaque(sp_ref)
+    sp_ref = species(DictV({'H': nH, 'O': nO}), references=refs)
     n_flips = 0
     for wname, tname, q, owner, fn in wrappers_of(repo, ci):
         tfn = repo.find_method(ci, tname)[1]
@@ -317,6 +410,25 @@ def check(run, repo):
             run_pair(run, I, sp_ref, 'StatMech[references,%s=%s]' % (opt, not dflt), wname, tname, q, owner, fn, av,
                      ['J/mol/K'], molw, counter)
     run.floor('StatMech wrapper options flipped', n_flips, 28)
+    # the same species with a mode that lacks the getters (a user-defined model): the switch that turns the error
+    # into a warning and the one that turns the warning into nothing act on both forms - with complete modes neither
+    # switch has anything to act on
+    sp_bare = species(DictV({'H': nH, 'O': nO}), nucl_model=bare_model(I, 'bare'))
+    n_sil = 0
+    for wname, tname, q, owner, fn in wrappers_of(repo, ci):
+        tfn = repo.find_method(ci, tname)[1]
+        for var in SILENCE:
+            if not all(o in params(fn)[0] and o in params(tfn)[0] for o in var):
+                continue
+            n_sil += run_pair(run, I, sp_bare, 'StatMech[mode without getters,%s]' % ','.join('%s=%s' % kv for kv in sorted(var.items())),
+                     wname, tname, q, owner, fn, dict({'T': D.sym('T'), 'P': D.sym('P')}, **var), ['J/mol/K'], molw,
+                     counter, warns=True)
+    run.floor('StatMech wrappers with a mode that lacks the getter', n_sil, 16)
+    # temperature only: every option the wrapper has a default for is left out on both forms (the pressure too - the
+    # modes then use their own, 1 bar), so a default of the wrapper that differs from its twin's shows
+    for wname, tname, q, owner, fn in wrappers_of(repo, ci):
+        run_pair(run, I, sp, 'StatMech[options left out]', wname, tname, q, owner, fn, {'T': D.sym('T')},
+                 ['J/mol/K'], molw, counter)
 
     # ---- (c) empirical species --------------------------------------------------
     for cname, qual in (('Nasa', 'pmutt.empirical.nasa.Nasa'), ('Nasa9', 'pmutt.empirical.nasa.Nasa9'),
@@ -328,19 +440,38 @@ def check(run, repo):
         D = I.D
         nH, nO = D.sym('nH'), D.sym('nO')
         molw = C(aw['H']) * nH + C(aw['O']) * nO
-        attrs = {'name': 'sp', 'elements': DictV({'H': nH, 'O': nO}), 'misc_models': attached_models(I, 1)}
+        models = attached_models(I, 1)
+        pressure_default(*models.items)
+        attrs = {'name': 'sp', 'misc_models': models}
+        post = []
         if cname == 'Nasa':
             attrs.update({'a_low': coeff_vector(I, 'lo', 7), 'a_high': coeff_vector(I, 'hi', 7)})
         elif cname == 'Nasa9':
             seg = Obj('seg0', repo.cls('pmutt.empirical.nasa.SingleNasa9'), attrs={'a': coeff_vector(I, 's', 9)})
-            post = ('nasas', ListV([seg]))
+            post = [('nasas', ListV([seg]))]
         else:
             attrs.update({'a': coeff_vector(I, 'a', 8)})
-            post = ('units', D.sym('units'))
-        sp = Obj('sp', ci, attrs=attrs)
-        if cname != 'Nasa':
-            set_public(I, sp, *post)
-        sel_opaque(sp)
+            post = [('units', D.sym('units'))]
+
+        def species(elements, **over):
+            # what the class keeps behind a property goes in through the property (composition, segments, own unit)
+            o = Obj('sp', ci, attrs=dict(attrs, **{k: v for k, v in over.items() if k != 'units'}))
+            for k, v in post:
+                set_public(I, o, k, over.get(k, v))
+            set_public(I, o, 'elements', elements)
+            sel_opaque(o)
+            return o
+        # a Shomate polynomial is stored in a unit of its own (J/mol/K, the default, or kJ/mol/K): each asked for its
+        # values in its own unit, in the other one and per mass - asking in the stored unit is not a special case
+        if cname == 'Shomate':
+            for own in ('J/mol/K', 'kJ/mol/K'):
+                sp_u = species(DictV({'H': nH, 'O': nO}), units=own)
+                for sel in (None, True):
+                    avail = {'T': D.sym('T'), 'P': D.sym('P'), 'S_elements': sel}
+                    for wname, tname, q, owner, fn in wrappers_of(repo, ci):
+                        run_pair(run, I, sp_u, '%s[units=%s]%s' % (cname, own, sel_label(sel)), wname, tname, q, owner,
+                                 fn, avail, ['J/mol/K', 'kJ/mol/K'] + (['J/g/K'] if sel is None else []), molw, counter)
+        sp = species(DictV({'H': nH, 'O': nO}))
         for sel in (None, True, False):
             avail = {'T': D.sym('T'), 'P': D.sym('P'), 'S_elements': sel}
             for wname, tname, q, owner, fn in wrappers_of(repo, ci):
@@ -353,8 +484,7 @@ def check(run, repo):
                          ['J/mol/K'] if sel is False else unit_variants(rkeys, thorough and sel is None, per_mass=True),
                          molw, counter)
         # the same species without a composition (``elements`` is None, the constructor's default)
-        sp_0 = Obj('sp', ci, attrs=dict(sp.attrs, elements=None))
-        sel_opaque(sp_0)
+        sp_0 = species(None)
         for wname, tname, q, owner, fn in wrappers_of(repo, ci):
             run_nomass(run, I, sp_0, cname + '[elements=None]', wname, tname, q, owner, fn,
                        {'T': D.sym('T'), 'P': D.sym('P'), 'S_elements': None}, counter)
@@ -366,15 +496,41 @@ def check(run, repo):
         for wname, tname, q, owner, fn in wrappers_of(repo, ci):
             run_pair(run, I, sp, cname + '[array T]', wname, tname, q, owner, fn,
                      {'T': arrT, 'P': D.sym('P'), 'S_elements': None}, ['J/mol/K', 'kJ/kg/K'], molw, counter)
+        # a second species with the same element symbols but other counts, after the first in the same session
+        mH, mO = D.sym('mH'), D.sym('mO')
+        sp_b = species(DictV({'H': mH, 'O': mO}))
+        for wname, tname, q, owner, fn in wrappers_of(repo, ci):
+            run_pair(run, I, sp_b, cname + '[second species, same elements]', wname, tname, q, owner, fn,
+                     {'T': D.sym('T'), 'P': D.sym('P')}, ['J/g/K'], C(aw['H']) * mH + C(aw['O']) * mO, counter)
+        # a second attached model that lacks the getters (a user-defined model that shifts one quantity only, taken to
+        # the extreme): the switch that turns the error into a warning and the one that turns the warning into nothing
+        # act on both forms - with complete models neither switch has anything to act on
+        sp_bare = species(DictV({'H': nH, 'O': nO}), misc_models=ListV(list(models.items) + [bare_model(I, 'bare')]))
+        n_sil = 0
+        for wname, tname, q, owner, fn in wrappers_of(repo, ci):
+            tfn = repo.find_method(ci, tname)[1]
+            for var in SILENCE:
+                if not all(o in params(fn)[0] and o in params(tfn)[0] for o in var):
+                    continue
+                n_sil += run_pair(run, I, sp_bare, '%s[model without getters,%s]'
+                                  % (cname, ','.join('%s=%s' % kv for kv in sorted(var.items()))), wname, tname, q,
+                                  owner, fn, dict({'T': D.sym('T'), 'P': D.sym('P')}, **var), ['J/mol/K'], molw,
+                                  counter, warns=True)
+        run.floor('%s wrappers with an attached model that lacks the getter' % cname, n_sil, 8)
+        # temperature only: every option the wrapper has a default for is left out on both forms
+        for wname, tname, q, owner, fn in wrappers_of(repo, ci):
+            run_pair(run, I, sp, cname + '[options left out]', wname, tname, q, owner, fn, {'T': D.sym('T')},
+                     ['J/mol/K'], molw, counter)
 
     # ---- (d) reactions ------------------------------------------------------------
-    n_numopts = n_nots = 0
+    n_numopts = n_nots = n_given = n_left = 0
     for cname, qual in (('Reaction', 'pmutt.reaction.Reaction'), ('ChemkinReaction', 'pmutt.reaction.ChemkinReaction'),
                         ('SurfaceReaction', 'pmutt.omkm.reaction.SurfaceReaction')):
         ci = repo.cls(qual)
         I = Interp(repo)
         D = I.D
         rxn, rs, ps, ts = reaction(I, repo, qual)
+        pressure_default(*(rs + ps + ts))
         for wname, tname, q, owner, fn in wrappers_of(repo, ci):
             n_wrappers += 1
             run.fn('%s.%s' % (owner.qual, wname))
@@ -409,7 +565,8 @@ def check(run, repo):
                          None, counter)
         # the same reaction without a transition state (the usual case for Chemkin and surface reactions, which give
         # the barrier a meaning of their own there): activation forms and the act option, forward and reverse
-        rxn0 = reaction(I, repo, qual, nts=0, name='rxn0')[0]
+        rxn0, rs0, ps0, _ = reaction(I, repo, qual, nts=0, name='rxn0')
+        pressure_default(*(rs0 + ps0))
         for wname, tname, q, owner, fn in wrappers_of(repo, ci):
             names = params(fn)[0]
             if not (wname.endswith('_act') or 'act' in names):
@@ -424,6 +581,52 @@ def check(run, repo):
                 n_nots += 1
                 lab = '%s[no transition state,%s]' % (cname, ','.join('%s=%s' % kv for kv in sorted(var.items())))
                 run_pair(run, I, rxn0, lab, wname, tname, q, owner, fn, avail, ['kJ/mol/K', 'eV/K'], None, counter)
+        # temperature only: every option the wrapper has a default for (P, rev, act, include_ZPE, del_m ...) is left out
+        # on both forms - the species then use their own pressure, 1 bar -, so a default of the wrapper that differs
+        # from what its twin does when nothing is said shows. With and, for the barriers, without a transition state.
+        for wname, tname, q, owner, fn in wrappers_of(repo, ci):
+            names = params(fn)[0]
+            variants = [{'state': 'reactants'}, {'state': 'TS'}] if 'state' in names else [{}]
+            for r_, tag in ((rxn, ''), (rxn0, 'no transition state,')):
+                if r_ is rxn0 and not (wname.endswith('_act') or 'act' in names):
+                    continue
+                for var in variants:
+                    avail = dict({'T': D.sym('T')}, **var)
+                    lab = '%s[%soptions left out%s]' % (cname, tag, ''.join(',%s=%s' % kv for kv in sorted(var.items())))
+                    n_left += run_pair(run, I, r_, lab, wname, tname, q, owner, fn, avail, ['kJ/mol/K'], None, counter)
+        # the same reaction with the optional arguments of its constructor given by the user (kinetic parameters: a
+        # barrier, a pre-exponential factor, an exponent, a sticking coefficient; an id, a direction, notes; the
+        # switches once as they are and once flipped): they are inputs of the rate expression and of the writers, a
+        # thermodynamic getter with units stays the dimensionless one times R (T), whatever was given
+        opts = ctor_options(repo, ci, D)
+        givens = []
+        if opts:
+            plain = {k: v for k, (v, sw) in opts.items() if not sw}
+            if plain:
+                givens.append(('given ' + ','.join(sorted(plain)), plain))
+            if any(sw for _, sw in opts.values()):
+                givens.append(('given ' + ','.join('%s=%s' % (k, v) if sw else k for k, (v, sw) in sorted(opts.items())),
+                               {k: v for k, (v, sw) in opts.items()}))
+            if thorough and len(opts) > 1:
+                givens += [('given %s only' % k, {k: v}) for k, (v, sw) in sorted(opts.items())]
+        n_plain = 1 if opts and any(not sw for _, sw in opts.values()) else 0
+        for i_, (tag, kw_) in enumerate(givens):
+            rxu, rsu, psu, tsu = reaction(I, repo, qual, ctor=kw_)
+            pressure_default(*(rsu + psu + tsu))
+            n_given += 1
+            for wname, tname, q, owner, fn in wrappers_of(repo, ci):
+                names = params(fn)[0]
+                if not thorough and i_ >= n_plain and not wname.endswith('_act'):
+                    continue        # quick: the flipped switches (adsorption ...) through the barriers only
+                variants = [{'state': 'reactants'}] if 'state' in names else [{}]
+                if wname.endswith('_act') and 'rev' in names:
+                    variants = [{'rev': False}, {'rev': True}]
+                for var in variants:
+                    avail = dict({'T': D.sym('T'), 'P': D.sym('P'), 'include_ZPE': True}, **var)
+                    lab = '%s[%s%s]' % (cname, tag, ''.join(',%s=%s' % kv for kv in sorted(var.items())))
+                    run_pair(run, I, rxu, lab, wname, tname, q, owner, fn, avail, ['kcal/mol/K'], None, counter)
+    run.floor('reactions built with user-specified constructor options', n_given, 5)
+    run.floor('reaction wrappers with every option left out', n_left, 90)
     run.floor('numeric options shared by a reaction wrapper and its twin', n_numopts, 3)
     run.floor('activation forms of reactions without a transition state', n_nots, 8)
     # ---- (e) BEP --------------------------------------------------------------------
@@ -449,6 +652,7 @@ N_ = 'pmutt/empirical/nasa.py'
 S_ = 'pmutt/empirical/shomate.py'
 R_ = 'pmutt/reaction/__init__.py'
 SM_ = 'pmutt/statmech/__init__.py'
+O_ = 'pmutt/omkm/reaction.py'
 MUTANTS = [
     {'name': '_ModelBase.get_S multiplies by T', 'expect': ('TWIN.dim', '.get_S'),
      'edits': [(P_, 'return _force_pass_arguments(self.get_SoR, **kwargs) * R_adj', 'return _force_pass_arguments(self.get_SoR, **kwargs) * R_adj * kwargs.get(\'T\', 1.)')]},
@@ -514,7 +718,58 @@ MUTANTS = [
                 "        R_adj = _get_R_adj(units=units, elements=self.elements) if self.elements is not None else c.R('J/mol/K')\n"
                 "        return self.get_SoR(T=T,")]},
 ]
+MUTANTS += [
+    # ---- instances added after round 2 of the white-box review ----
+    {'name': 'SurfaceReaction.get_H_act returns the user-specified Ea', 'expect': ('TWIN.dim', 'SurfaceReaction.get_H_act'),
+     'edits': [(O_, "        R_units = '{}/K'.format(units)\n        return self.get_HoRT_act(rev=rev, T=T, **kwargs)*T*c.R(R_units)",
+                "        if self.Ea is not None:\n            return c.convert_unit(self.Ea, initial='kcal/mol', final=units)\n"
+                "        R_units = '{}/K'.format(units)\n        return self.get_HoRT_act(rev=rev, T=T, **kwargs)*T*c.R(R_units)")]},
+    {'name': 'ChemkinReaction.get_G_act: no barrier for an adsorption', 'expect': ('TWIN.dim', 'ChemkinReaction.get_G_act'),
+     'edits': [(R_, "        return self.get_GoRT_act(T=T, rev=rev, **kwargs)*T \\\n               *c.R('{}/K'.format(units))",
+                "        if self.is_adsorption:\n            return 0.\n"
+                "        return self.get_GoRT_act(T=T, rev=rev, **kwargs)*T \\\n               *c.R('{}/K'.format(units))", 1, 2)]},
+    {'name': 'Nasa.get_Cp does not hand on raise_error/raise_warning', 'expect': ('FWD.raises', 'Nasa.get_Cp'),
+     'edits': [(N_, '''        return self.get_CpoR(T=T,
+                             raise_error=raise_error,
+                             raise_warning=raise_warning,
+                             **kwargs) * R_adj''', '''        return self.get_CpoR(T=T, **kwargs) * R_adj''', 0, 2)]},
+    {'name': 'Shomate.get_H does not hand on raise_warning', 'expect': ('FWD.warns', 'Shomate.get_H'),
+     'edits': [(S_, '''        return self.get_HoRT(T=T,
+                             raise_error=raise_error,
+                             raise_warning=raise_warning,
+                             **kwargs) * T * R_adj''', '''        return self.get_HoRT(T=T,
+                             raise_error=raise_error,
+                             **kwargs) * T * R_adj''')]},
+    {'name': 'StatMech.get_Cv does not hand on raise_error', 'expect': ('FWD.raises', 'StatMech.get_Cv'),
+     'edits': [(SM_, "        return self.get_CvoR(verbose=verbose,\n                             raise_error=raise_error,\n",
+                "        return self.get_CvoR(verbose=verbose,\n")]},
+    {'name': 'SurfaceReaction.get_G_act: default pressure 1 atm', 'expect': ('TWIN.dim', 'SurfaceReaction.get_G_act'),
+     'edits': [(O_, "    def get_G_act(self, units, T, P=1., rev=False, **kwargs):",
+                "    def get_G_act(self, units, T, P=1.01325, rev=False, **kwargs):")]},
+    {'name': 'Reaction.get_E_state: default include_ZPE=True', 'expect': ('TWIN.dim', 'get_E_state'),
+     'edits': [(R_, "                    T=c.T0('K'),\n                    include_ZPE=False,", "                    T=c.T0('K'),\n                    include_ZPE=True,")]},
+    {'name': 'Shomate.get_S: polynomial alone when asked in its own unit', 'expect': ('TWIN.dim', 'Shomate.get_S'),
+     'edits': [(S_, "        R_adj = _get_R_adj(units=units, elements=self.elements)\n        return self.get_SoR(T=T,",
+                "        if units == self.units and not S_elements:\n            t = np.array(T) / 1000.\n            a = self.a\n"
+                "            return a[0]*np.log(t) + a[1]*t + a[2]*t**2/2. + a[3]*t**3/3. - a[4]/(2.*t**2) + a[6]\n"
+                "        R_adj = _get_R_adj(units=units, elements=self.elements)\n        return self.get_SoR(T=T,")]},
+    {'name': 'Nasa.get_Cp remembers the constant per element symbols', 'expect': ('TWIN.dim', 'Nasa.get_Cp'),
+     'edits': [(N_, "    def get_Cp(self, T, units, raise_error=True, raise_warning=True, **kwargs):",
+                "    def get_Cp(self, T, units, raise_error=True, raise_warning=True, _memo={}, **kwargs):", 0, 2),
+               (N_, "        R_adj = _get_R_adj(units=units, elements=self.elements)\n",
+                "        try:\n            R_adj = _memo[(units, tuple(self.elements or ()))]\n        except KeyError:\n"
+                "            R_adj = _get_R_adj(units=units, elements=self.elements)\n"
+                "            _memo[(units, tuple(self.elements or ()))] = R_adj\n", 0, 8)]},
+    {'name': '_get_R_adj remembers the molar mass per element symbols', 'expect': ('TWIN.dim', 'StatMech'),
+     'edits': [(P_, "def _get_R_adj(units, elements=None):", "def _get_R_adj(units, elements=None, _memo={}):"),
+               (P_, "    mol_weight = get_molecular_weight(elements)  # g/mol\n",
+                "    try:\n        mol_weight = _memo[tuple(elements)]\n    except KeyError:\n"
+                "        mol_weight = _memo[tuple(elements)] = get_molecular_weight(elements)\n")]},
+]
 EQUIV = [
+    {'name': 'default pressure of SurfaceReaction.get_G_act spelled c.P0',
+     'edits': [(O_, "    def get_G_act(self, units, T, P=1., rev=False, **kwargs):",
+                "    def get_G_act(self, units, T, P=c.P0('bar'), rev=False, **kwargs):")]},
     {'name': 'get_delta_Cv spelled with keyword order changed',
      'edits': [(R_, 'return self.get_delta_CvoR(rev=rev, act=act, **kwargs) * c.R(units)', 'return c.R(units) * self.get_delta_CvoR(act=act, rev=rev, **kwargs)')]},
 ]
